@@ -462,7 +462,14 @@ func runC20(cx *CheckCtx) {
 			okE, why := everyElement(aa, put, nil)
 			cx.decide(okE, "every-key", "neofsid.AddKey", "every submitted key is bound", "AddKey does not bind every submitted key: "+why, put.Where(w))
 			// an iteration may go round the delete only when the record is established absent
-			okE, why = everyElement(ra, del, func(st *CNF) bool { return ra.holdsAt(st, ra.litNil(ra.tb.mk("read", "", 0, del.Args[1]))) })
+			okE, why = everyElement(ra, del, func(st *CNF) bool {
+				for _, f := range ra.unitFactsRaw(st) {
+					if f.kind == KNil && f.pos && f.A.Op == "read" && len(f.A.Args) > 0 && f.A.Args[0] == del.Args[1] {
+						return true // the record was just read absent under the very key that would be deleted
+					}
+				}
+				return false
+			})
 			cx.decide(okE, "every-key", "neofsid.RemoveKey", "every submitted key is unbound", "RemoveKey does not unbind every submitted key (key(owner) keeps returning removed keys): "+why, del.Where(w))
 		}
 		cx.decide(ok && okK, "put-get-key", "neofsid.AddKey|RemoveKey|Key", "'o'‖owner(25)‖key for add/remove, Key scans 'o'‖owner(25) returning the key part", "neofsid add/remove/key do not agree on the key 'o'‖owner(25)‖public key", w.pos(am.Fn.Pos()))
